@@ -134,6 +134,14 @@ let rd_url () =
   let ok = rd_bool () in let sch = rd_bytes () in let op = rd_bytes () in
   { ul_ok = ok; ul_scheme = sch; ul_opaque = op }
 
+(* history cases: the model's state (what the server configuration file holds) lives across lines *)
+let hstate : server_cfg option ref = ref None
+let hstep op =
+  let (s', out) = step_toy !hstate op in
+  hstate := s';
+  (match out with Rejected _ -> "REJ " | Accepted _ -> "OK ") ^
+  (match s' with None -> "NOFILE" | Some c -> pr_server c)
+
 let () =
   let cases = open_in Sys.argv.(1) in
   iter_lines cases (fun line ->
@@ -181,6 +189,14 @@ let () =
         | "VP" -> string_of_int (int_of_n (validate_server_patch (rd_server ())))
         | "VC" -> string_of_int (int_of_n (validate_full_client (rd_client ())))
         | "VK" -> string_of_int (int_of_n (validate_client_patch (rd_client ())))
+        | "HR" -> hstate := None; "-"
+        | "HA" -> hstep (OpApply (rd_server ()))
+        | "HM" -> hstep OpApplyMalformed
+        | "HL" -> hstep OpLoad
+        | "HG" -> hstep OpGetJSON
+        | "HS" -> hstep (OpStore (rd_server ()))
+        | "HD" -> hstep (OpDelete (rd_list rd_bytes))
+        | "NH" -> (match hint_input (rd_bytes ()) (List.init 16 (fun _ -> n_of_int 0)) with Ok _ -> "OK" | _ -> "PANIC")
         | "AT" -> (match atoi (rd_bytes ()) with None -> "ERR" | Some v -> dec_of_z v)
         | _ -> "?"
       with Failure m -> "?parse " ^ m
